@@ -775,6 +775,10 @@ func (e *kvElection) StopWithContext(ctx context.Context, opts StopOptions) erro
 		}
 	}
 
+	// One deadline for the whole call: waiting for the goroutines, deleting
+	// the key and waiting for OnDemote share it.
+	deadline := time.Now().Add(timeout)
+
 	done := make(chan struct{})
 	go func() {
 		e.wg.Wait()
@@ -815,7 +819,24 @@ func (e *kvElection) StopWithContext(ctx context.Context, opts StopOptions) erro
 
 	e.verifYield("stop.beforedelete")
 	if opts.DeleteKey && wasLeader {
-		if err := e.kv.Delete(e.key); err != nil {
+		// The store may hang; do not let the deletion outlive the deadline.
+		var err error
+		if remaining := time.Until(deadline); remaining <= 0 {
+			err = NewTimeoutError("key deletion", timeout, nil)
+		} else if ctx.Err() != nil {
+			err = ctx.Err()
+		} else {
+			delErr := make(chan error, 1)
+			go func() { delErr <- e.kv.Delete(e.key) }()
+			select {
+			case err = <-delErr:
+			case <-time.After(remaining):
+				err = NewTimeoutError("key deletion", timeout, nil)
+			case <-ctx.Done():
+				err = ctx.Err()
+			}
+		}
+		if err != nil {
 			log := e.getLogger()
 			log.Warn("key_deletion_failed",
 				append(e.logWithContext(ctx),
@@ -857,7 +878,7 @@ func (e *kvElection) StopWithContext(ctx context.Context, opts StopOptions) erro
 
 				select {
 				case <-done:
-				case <-time.After(timeout):
+				case <-time.After(time.Until(deadline)):
 					log.Warn("ondemote_callback_timeout",
 						append(e.logWithContext(ctx),
 							zap.Duration("timeout", timeout),
